@@ -103,11 +103,16 @@ func (g *brokerGen) payload() string {
 		r.Read(b)
 		return hexOf(b)
 	case k == 18 && r.Intn(6) == 0:
-		// large payloads: several read blocks, wrapping both rings; thorough runs go close to the
-		// packet limit (buffer size minus one 8 KiB read block)
+		// large payloads: several read blocks, wrapping both rings; now and then (thorough: often) a
+		// packet that needs the last read block of the ring (ring size - 8 KiB < length <= ring size; it
+		// reaches the broker in reads of at most 8 KiB - before repository commit 8f682d1 that wedged the
+		// connection, finding F3)
 		n := 9000 + r.Intn(60000)
 		if g.thorough && r.Intn(4) == 0 {
 			n = 200000 + r.Intn(40000)
+		}
+		if r.Intn(8) == 0 || (g.thorough && r.Intn(3) == 0) {
+			n = isoRing - 8192 + r.Intn(8100)
 		}
 		b := make([]byte, n)
 		r.Read(b)
@@ -776,12 +781,6 @@ func genBrokerIso(seed int64, n int, tier string, w *bufio.Writer) {
 				data := g.attack(g.validPacket(g.anyType()))
 				if r.Intn(3) == 0 {
 					data = append(g.validPacket(g.anyType()), data...)
-				}
-				if sc, _, _ := scanFrames(data, isoRing); sc > 0 {
-					// keep clear of the recorded ring defect F3 (a packet of more than ring − 8 KiB sent in pieces)
-					if len(data) > isoRing-8192 {
-						data = data[:100]
-					}
 				}
 				if r.Intn(4) == 0 && len(data) > 1 {
 					done += g.split(a, data)
